@@ -59,6 +59,12 @@ def jobs(ctx):
     add("coulomb/cell_veto+crowd4", J + "coulomb_atoms/cell_veto.ini", 0.06 if not t else 0.2, 0.0093, samp=0.0043,
         chain=0.0057, start=specmod.crowded_atoms(), n=4, sched=("heap_scheduler",) if not t else
         ("heap_scheduler", "list_scheduler"))
+    # several occupants in the nearby cells: the order in which the activator hands out pair handlers (and with it the
+    # consumption of the random stream) must survive a dump / differ not between two builds of the same run
+    add("coulomb/cell_veto*8", J + "coulomb_atoms/cell_veto.ini", 0.03 if not t else 0.1, 0.0053, samp=0.0043,
+        chain=0.0057, n=8, sched=("heap_scheduler",))
+    add("coulomb/cell_bounded*8", J + "coulomb_atoms/cell_bounded.ini", 0.05 if not t else 0.2, 0.0093, samp=0.0043,
+        chain=0.0057, n=8, sched=("list_scheduler",))
     add("dipoles/cell_bounded", J + "dipoles/cell_bounded.ini", 0.4 if not t else 1.2, 0.047, samp=0.011, chain=0.013)
     add("dipoles/dipole_motion", J + "dipoles/dipole_motion.ini", 5.0 if not t else 16.0, 0.71, samp=0.2, chain=0.27,
         sched=("heap_scheduler",) if not t else ("heap_scheduler", "list_scheduler"))
@@ -111,7 +117,7 @@ def run_job(name, spec, dump, seed, res, stats, pool, only_dump=None):
                                   "out": os.path.join(work, "ref.json")})
         case0 = {"name": name, "spec": spec.to_json(), "dumping_interval": dump, "seed": seed}
         if ref["error"]:
-            res.add("reference-run-exception", dict(case0, dump=None), "%s: the run with dumping raised %s"
+            res.add("reference-run-exception", dict(case0, dump=None, key="reference-run-exception"), "%s: the run with dumping raised %s"
                     % (name, ref["error"][:700]))
             return
         marks = ref["marks"]
@@ -120,7 +126,7 @@ def run_job(name, spec, dump, seed, res, stats, pool, only_dump=None):
         stats["events"] += len(log)
         stats["per_job"][name] = {"events": len(log), "dumps": len(marks), "ended": bool(ref.get("ended"))}
         # resumes
-        ks = list(range(len(marks))) if only_dump is None else [only_dump]
+        ks = list(range(len(marks))) if only_dump is None else ([only_dump] if only_dump >= 0 else [])
         futs = {}
         for k in ks:
             job = {"dump": os.path.join(work, "dump_%d.dat" % k), "out": os.path.join(work, "res_%d.json" % k)}
@@ -132,14 +138,14 @@ def run_job(name, spec, dump, seed, res, stats, pool, only_dump=None):
             tail = log[marks[k]:]
             case = dict(case0, dump=k)
             if r["error"]:
-                res.add("resume-exception", case, "%s: resuming dump %d of %d raised %s"
+                res.add("resume-exception", dict(case, key="resume-exception"), "%s: resuming dump %d of %d raised %s"
                         % (name, k, len(marks), r["error"][:700]))
                 continue
             d = first_diff(r["log"], tail)
             stats["compared_events"] += len(tail)
             if d is not None:
                 i, mine, theirs = d
-                res.add("resume-differs", case, "%s: resuming dump %d of %d (taken after event %d of %d) diverges at "
+                res.add("resume-differs", dict(case, key="resume-differs"), "%s: resuming dump %d of %d (taken after event %d of %d) diverges at "
                         "event %d after the dump: resumed run has %s, the uninterrupted run %s"
                         % (name, k, len(marks), marks[k], len(log), i, brief(mine), brief(theirs)))
         # with exact ties the order of simultaneous events is unspecified and legitimately depends on what else is in
@@ -148,7 +154,7 @@ def run_job(name, spec, dump, seed, res, stats, pool, only_dump=None):
             plain = _run_worker("plain", {"spec": spec.to_json(), "seed": seed, "workdir": work,
                                           "out": os.path.join(work, "plain.json")})
             if plain["error"]:
-                res.add("plain-run-exception", dict(case0, dump=-1), "%s: the run without dumping raised %s"
+                res.add("plain-run-exception", dict(case0, dump=-1, key="plain-run-exception"), "%s: the run without dumping raised %s"
                         % (name, plain["error"][:700]))
             else:
                 stripped = [e for e in log if not (e[0] == "commit" and "Dumping" in (e[1] or ""))]
@@ -156,10 +162,50 @@ def run_job(name, spec, dump, seed, res, stats, pool, only_dump=None):
                 stats["compared_events"] += len(stripped)
                 if d is not None:
                     i, mine, theirs = d
-                    res.add("dumping-changes-run", dict(case0, dump=-1), "%s: the run that writes dumps differs from "
+                    res.add("dumping-changes-run", dict(case0, dump=-1, key="dumping-changes-run"), "%s: the run that writes dumps differs from "
                             "the run without dumping at event %d: %s vs %s" % (name, i, brief(mine), brief(theirs)))
     finally:
         shutil.rmtree(work, ignore_errors=True)
+
+
+def order_stability(res, stats):
+    """A necessary condition for bit-equal resumes in cell systems, decided deterministically: the order in which the
+    real excluded-cells tagger hands out its pair in-states (= the order in which pair handlers draw from the random
+    stream) must be the same in a second build, in a fresh interpreter, and for objects restored from a dill dump
+    (in-process and in a fresh interpreter)."""
+    import base64
+    import dill
+    from .. import crashx
+    work = tempfile.mkdtemp(prefix="jfv_c19o_")
+    try:
+        for counts, layers in (((3, 5, 7), 1), ((6, 6, 6), 2)):
+            objs, here = crashx.nearby_order(counts, layers)
+            _, again = crashx.nearby_order(counts, layers)
+            blob = dill.dumps(objs)
+            _, restored = crashx.nearby_order(counts, layers, blob)
+            other = _run_worker("order", {"counts": list(counts), "layers": layers,
+                                          "out": os.path.join(work, "o1.json")})["order"]
+            other_restored = _run_worker("order", {"counts": list(counts), "layers": layers,
+                                                   "blob": base64.b64encode(blob).decode(),
+                                                   "out": os.path.join(work, "o2.json")})["order"]
+            stats["order_comparisons"] = stats.get("order_comparisons", 0) + 4 * len(here)
+            if len(here) < 8:
+                raise HarnessError("order-stability harness: only %d nearby in-states" % len(here))
+            for name, o in (("a second build in the same process", again), ("the system restored from a dump", restored),
+                            ("a build in a fresh interpreter", other),
+                            ("the system restored from a dump in a fresh interpreter", other_restored)):
+                if o != here:
+                    k = next(i for i, (a, b) in enumerate(zip(here, o)) if a != b)
+                    res.add("cell-order-not-reproducible", {"order_stability": True},
+                            "grid %r, %d neighbour layers, 14 units: the excluded-cells tagger hands out its pair "
+                            "in-states in the order %r..., in %s in the order %r... (first difference at position %d): "
+                            "pair handlers then consume the random stream in a different order"
+                            % (counts, layers, here[:4], name, o[:4], k))
+                    break
+    finally:
+        shutil.rmtree(work, ignore_errors=True)
+        import jellyfysh.setting as setting
+        setting.reset()
 
 
 def run(ctx):
@@ -174,8 +220,10 @@ def run(ctx):
                     all_jobs]
             for f in futs:
                 f.result()
+    order_stability(res, stats)
     res.coverage = {
         "evaluations": stats["resumes"] + len(all_jobs), "distinct_nontrivial": stats["dumps"],
+        "cell_order_comparisons": stats.get("order_comparisons", 0),
         "rule": "every dump written by each reference run (real DumpingOutputHandler, real Mersenne Twister, dumping "
                 "interval incommensurate with the other intervals; one variant with commensurate intervals = exact "
                 "ties) is resumed in a fresh interpreter exactly as resume.py does and compared event by event, bit "
@@ -192,9 +240,17 @@ def run(ctx):
 def replay(ctx, case):
     from ..core import Result
     r = Result()
+    if case.get("order_stability"):
+        order_stability(r, {})
+        return sorted(set(v.key for v in r.violations)) or None
     stats = {"dumps": 0, "events": 0, "resumes": 0, "compared_events": 0, "per_job": {}}
     spec = Spec.from_json(case["spec"])
-    with concurrent.futures.ThreadPoolExecutor(max_workers=2) as pool:
-        run_job(case["name"], spec, case["dumping_interval"], case["seed"], r, stats, pool,
-                only_dump=case.get("dump") if case.get("dump") is not None else -2)
-    return sorted(set(v.key for v in r.violations)) or None
+    # A run that is not reproducible from one process to the next (the defect this property is about) need not fail
+    # in every repetition: the case is re-run up to four times and counts as reproduced if it fails once.
+    for _ in range(4):
+        with concurrent.futures.ThreadPoolExecutor(max_workers=2) as pool:
+            run_job(case["name"], spec, case["dumping_interval"], case["seed"], r, stats, pool,
+                    only_dump=case.get("dump") if case.get("dump") is not None else -2)
+        if any(v.key == case.get("key") for v in r.violations):
+            return [case["key"]]
+    return None
